@@ -397,6 +397,9 @@ func (r *reader) readDims(base string, dims []int, n *JNode, path string, depth 
 	return r.readAtomic(kind, size, n, path)
 }
 
+// maxIntegerText bounds the integer spellings the reference is willing to read.
+const maxIntegerText = 70000
+
 func isPlainDecimal(s string) bool {
 	if strings.HasPrefix(s, "-") {
 		s = s[1:]
@@ -435,10 +438,10 @@ func IntegerOf(n *JNode) (v *big.Int, ok bool) {
 		}
 	case 's':
 		s = n.Str
+		if len(s) > maxIntegerText {
+			return nil, false
+		}
 		if strings.HasPrefix(s, "0x") && len(s) > 2 && isHexDigits(s[2:]) {
-			if len(s) > 2+200 {
-				return nil, false
-			}
 			v, ok = new(big.Int).SetString(s[2:], 16)
 			return v, ok
 		}
@@ -448,13 +451,8 @@ func IntegerOf(n *JNode) (v *big.Int, ok bool) {
 	default:
 		return nil, false
 	}
-	if len(s) > 200 {
-		// certainly outside every 256-bit range; keep the magnitude without parsing megabytes
-		v = new(big.Int).Lsh(one, 300)
-		if s[0] == '-' {
-			v.Neg(v)
-		}
-		return v, true
+	if len(s) > maxIntegerText {
+		return nil, false
 	}
 	v, ok = new(big.Int).SetString(s, 10)
 	return v, ok
